@@ -3,7 +3,7 @@
 cd /verif
 one() {
   p=$1; d=$(mktemp -d /var/tmp/bm.XXXXXX)
-  git -C /repo archive HEAD rl_blox | tar -x -C $d
+  git -C /repo archive HEAD | tar -x -C $d
   if ! (cd $d && patch -p1 -s < $p >/dev/null 2>&1); then echo "$p : PATCH-DOES-NOT-APPLY"; rm -rf $d; return; fi
   v=""; u=""
   for i in $(seq -w 1 20); do
